@@ -1828,7 +1828,7 @@ pub(crate) fn resolve_temp_id(id: &str) -> Option<usize> {
             if !x.is_uppercase() {
                 return None;
             }
-            return Some(id[2..].parse().ok()?);
+            return Some(iter.as_str().parse().ok()?);
         }
     }
     None
